@@ -431,7 +431,7 @@ Section Check.
   (* cur: return type of the innermost enclosing function (cur_func_stack.last()) *)
   Definition check_stmt_return (cur : option ety) (v : option texpr) : outcome unit :=
     match cur with
-    | None => Panic P_EXPECT                         (* expect("return outside of function?!") *)
+    | None => Err E_TYPE                             (* "return outside of a function" (a panic before fix 40454b1) *)
     | Some ret =>
         match v with
         | None => require_exact Void ret
